@@ -3,7 +3,7 @@
 Each patch is applied to a scratch worktree of /repo (./seedtest.sh) and every check whose property is
 anchored in one of the touched files (plus the author's own property) is run, quick tier. A check that
 reports a VIOLATION or is BROKEN on such a change is a false alarm / a fragility of the machinery.
-Usage: ./refround.py <prefix> [Cnn ...]"""
+Usage: ./refround.py <prefix> [Cnn ...]      (prefix "stored": the committed corpus seeded/preserving)"""
 import json, os, re, subprocess, sys
 
 os.chdir(os.path.dirname(os.path.abspath(__file__)))
@@ -13,6 +13,16 @@ sel = sys.argv[2:] or [p["id"] for p in props]
 bad = 0
 for pid in sel:
     wt = f"/tmp/{prefix}-{pid.lower()}"
+    if prefix == "stored":
+        # the committed corpus: seeded/preserving/<pid>-<k>/
+        os.makedirs("/dev/shm/verif-stored", exist_ok=True)
+        wt = f"/dev/shm/verif-stored/{pid.lower()}"
+        for d in sorted(os.listdir("seeded/preserving")):
+            if d.startswith(pid + "-") and os.path.isdir(f"seeded/preserving/{d}"):
+                k = d.split("-")[1]
+                os.makedirs(f"{wt}/_mut/{k}", exist_ok=True)
+                for f in ("patch.diff", "README.md"):
+                    open(f"{wt}/_mut/{k}/{f}", "w").write(open(f"seeded/preserving/{d}/{f}").read())
     if not os.path.isdir(f"{wt}/_mut"):
         continue
     for k in sorted(int(x) for x in os.listdir(f"{wt}/_mut") if x.isdigit()):
